@@ -104,6 +104,43 @@ func ruleHandlerGate(c *Ctx, rule string) {
 		c.check(rule, name+":method-known", meth, "dispatch only for a registered method of the matching kind", p.ipos(s))
 	}
 	c.floor(rule, "dispatch sites", len(sites), 2)
+	ruleUndecodableMetadataReported(c, rule)
+}
+
+// ruleUndecodableMetadataReported: contextFromHeaders hands the metadata decoding error to its callers on every
+// path on which decoding failed (they refuse the request on it: C01.6 / C06.7). A return that may be reached with
+// the decode error set but yields a nil error makes the server run a handler for a malformed request.
+func ruleUndecodableMetadataReported(c *Ctx, rule string) {
+	p := c.p
+	cfh := p.MustFn("goat.contextFromHeaders")
+	n := 0
+	for _, ci := range p.callsTo(cfh, "int.ToMetadata", false) {
+		errV := extractOf(ci.(*ssa.Call), 1)
+		if errV == nil {
+			c.check(rule, "contextFromHeaders:decode-error-used", false, "the error of ToMetadata is discarded", p.ipos(ci.(ssa.Instruction)))
+			continue
+		}
+		errPath := p.lpath(errV)
+		for _, r := range returnsOf(cfh) {
+			if !instrDominates(ci.(ssa.Instruction), r) {
+				continue
+			}
+			fs := p.Facts(r)
+			if fs.IsNil(errPath) {
+				continue // decoding succeeded on every path to this return
+			}
+			n++
+			vs := retVals(r)
+			res := vs[len(vs)-1]
+			ok := p.sameValue(res, errV) && fs.NonNil(errPath)
+			why := "returns the decode error under fact err != nil"
+			if !ok {
+				ok, why = p.provablyNonNilErr(res, r)
+			}
+			c.check(rule, "contextFromHeaders:decode-failure⇒error", ok, "a return that can be reached after ToMetadata failed yields a non-nil error ("+why+")", p.ipos(r))
+		}
+	}
+	c.floor(rule, "returns of contextFromHeaders reachable with a decode error", n, 1)
 }
 
 // ---- entry facts by contract ----
@@ -331,18 +368,7 @@ func ruleLatchRelease(c *Ctx, rule string) {
 	rl := p.MustFn("client.clientStream.readLoop")
 	// onReady: the closure that calls ready.Done
 	// the function that releases the latch (a closure of the read loop, or a method it was moved into)
-	var onReady *ssa.Function
-	for _, f := range p.Funcs {
-		if strings.HasPrefix(p.fnKey(rootFn(f)), "client.clientStream.") && len(p.callsTo(f, "sync.WaitGroup).Done", false)) > 0 {
-			if onReady != nil {
-				panic(UnresolvedError{"exactly one function releasing the ready latch"})
-			}
-			onReady = f
-		}
-	}
-	if onReady == nil {
-		panic(UnresolvedError{"function releasing the ready latch (calls ready.Done)"})
-	}
+	onReady := p.latchReleaseFn()
 	isRelease := func(i ssa.Instruction) bool {
 		cl, ok := i.(*ssa.Call)
 		if !ok || cl.Call.IsInvoke() {
@@ -387,22 +413,7 @@ func ruleLatchRelease(c *Ctx, rule string) {
 func ruleTerminalErrorAssigned(c *Ctx, rule string) {
 	p := c.p
 	rl := p.MustFn("client.clientStream.readLoop")
-	// the cell captured by the deferred block and published as protected.rErr
-	var cell *ssa.Alloc
-	for _, s := range p.FieldStores(fieldKey{"client.clientStream.protected", "rErr"}) {
-		if ld, ok := s.Val.(*ssa.UnOp); ok {
-			if fv, ok := ld.X.(*ssa.FreeVar); ok {
-				for _, b := range p.freeVarBindings(fv) {
-					if al, ok := b.(*ssa.Alloc); ok && al.Parent() == rl {
-						cell = al
-					}
-				}
-			}
-		}
-	}
-	if cell == nil {
-		panic(UnresolvedError{"terminal-error variable of clientStream.readLoop (published as protected.rErr)"})
-	}
+	cell := p.terminalErrCell()
 	n := 0
 	for _, r := range returnsOf(rl) {
 		n++
@@ -462,4 +473,44 @@ func ruleUnknownIdsDropped(c *Ctx, rule string) {
 		c.check(rule, "handleResponse:"+p.opDesc(op), ok, "channel operations happen only for a registered id; an unknown id returns without touching any queue: "+fs.String(), p.ipos(op.Instr))
 	}
 	c.floor(rule, "channel operations in handleResponse", n, 1)
+}
+
+// terminalErrCell: the local variable of clientStream.readLoop that its deferred block publishes as
+// protected.rErr (found through the capture, not by its name).
+func (p *Prog) terminalErrCell() *ssa.Alloc {
+	rl := p.MustFn("client.clientStream.readLoop")
+	var cell *ssa.Alloc
+	for _, s := range p.FieldStores(fieldKey{"client.clientStream.protected", "rErr"}) {
+		if ld, ok := s.Val.(*ssa.UnOp); ok {
+			if fv, ok := ld.X.(*ssa.FreeVar); ok {
+				for _, b := range p.freeVarBindings(fv) {
+					if al, ok := b.(*ssa.Alloc); ok && al.Parent() == rl {
+						cell = al
+					}
+				}
+			}
+		}
+	}
+	if cell == nil {
+		panic(UnresolvedError{"terminal-error variable of clientStream.readLoop (published as protected.rErr)"})
+	}
+	return cell
+}
+
+// latchReleaseFn: the function that releases the stream's ready latch (a closure of the read loop, or a method it
+// was moved into): the only one under clientStream that calls ready.Done.
+func (p *Prog) latchReleaseFn() *ssa.Function {
+	var onReady *ssa.Function
+	for _, f := range p.Funcs {
+		if strings.HasPrefix(p.fnKey(rootFn(f)), "client.clientStream.") && len(p.callsTo(f, "sync.WaitGroup).Done", false)) > 0 {
+			if onReady != nil {
+				panic(UnresolvedError{"exactly one function releasing the ready latch"})
+			}
+			onReady = f
+		}
+	}
+	if onReady == nil {
+		panic(UnresolvedError{"function releasing the ready latch (calls ready.Done)"})
+	}
+	return onReady
 }
